@@ -816,10 +816,11 @@ func (m *Machine) evalBind(q *gojq.Query, env *Env, in any, ps *PS, out OutFn) *
 			if s == nil {
 				return nil
 			}
-			if i == len(pats)-1 || s.Kind == sigBudget || s.Kind == sigUnsupported {
+			if i == len(pats)-1 || s.Kind == sigBudget || s.Kind == sigUnsupported || s.Kind == sigHalt {
 				return s
 			}
-			// any error (also break/halt) reaching a non-last alternative moves on to the next
+			// any error (also a break, as in jq 1.6) reaching a non-last alternative moves on to the next; halt stops the
+			// program and is nobody's to intercept
 		}
 		return nil
 	})
